@@ -176,6 +176,18 @@ func (d c08) Execute(c *core.Case) *core.Result {
 	type cacheVal struct {
 		id     string
 		logLen int
+		walked map[int]bool
+	}
+	// positions of policy entries beyond the cache point that an accepting verification of the caching
+	// actor walked over with the cache enabled and whose cache commit is the current cache ref: the walk
+	// records each of them in the index, so a later lookup cannot answer with an older state in their stead
+	walked := map[int]bool{}
+	copyWalked := func() map[int]bool {
+		m := map[int]bool{}
+		for k := range walked {
+			m[k] = true
+		}
+		return m
 	}
 	cacheHistory := []cacheVal{} // earlier values of the cache ref (for the stale-cache fault)
 	cacheLogLen := -1            // log length when the cache ref last changed
@@ -221,6 +233,7 @@ func (d c08) Execute(c *core.Case) *core.Result {
 			continue
 		}
 		cur, _ := w.St.GetRef(cacheRef)
+		pendingWalk := [2]int{0, 0}
 		switch op.Kind {
 		case "staleCache":
 			// the cache commit of the last verification is lost (crash before
@@ -230,6 +243,7 @@ func (d c08) Execute(c *core.Case) *core.Result {
 				if old.id != cur {
 					w.St.SetRef(cacheRef, old.id)
 					cacheLogLen = old.logLen
+					walked = old.walked
 					res.Stat("fault:stale-cache", 1)
 					actions = append(actions, "stale")
 				}
@@ -362,6 +376,16 @@ func (d c08) Execute(c *core.Case) *core.Result {
 						if w.Entries[p].Kind != "reference" {
 							continue
 						}
+						// an older state at q cannot be the index's answer for p when a policy entry
+						// between them is known to be in the index
+						walkedSince := func(q int) bool {
+							for x := q + 1; x < p; x++ {
+								if walked[x] {
+									return true
+								}
+							}
+							return false
+						}
 						truth := l.Decide(p).Authorized
 						if tp := l.PolicyBefore(p); tp != nil && cacheLogLen <= p {
 							// the stale index is complete up to the cache point and has, beyond it, only what later
@@ -372,7 +396,7 @@ func (d c08) Execute(c *core.Case) *core.Result {
 								if e.Kind != "reference" {
 									continue
 								}
-								if e.Ref == policyRef && e.Policy != nil && e.Policy != tp && l.PolicyBefore(p) != e.Policy && l.DecideUnder(p, e.Policy, l.AttBefore(p)).Authorized != truth {
+								if e.Ref == policyRef && e.Policy != nil && e.Policy != tp && l.PolicyBefore(p) != e.Policy && l.DecideUnder(p, e.Policy, l.AttBefore(p)).Authorized != truth && !walkedSince(q) {
 									feat = append(feat, "stale-policy-answer-explains")
 								}
 								if e.Ref == attRef && l.DecideUnder(p, tp, e.Att).Authorized != truth {
@@ -428,6 +452,23 @@ func (d c08) Execute(c *core.Case) *core.Result {
 				res.Violate("C08", class, fmt.Sprintf("%s verification of %s by the caching actor returned %s (tip %s, %s); a cache-less fresh process on the same log returns %s (tip %s, %s) [cache ref %s, index complete up to log length %d, log length now %d]", vop.Mode, vop.Ref, v.Class, short10(v.Tip), v.Err, tv.Class, short10(tv.Tip), tv.Err, short10(cur), cacheLogLen, len(w.Entries)), op.ID, feat...)
 				return res
 			}
+			if v.Class == "accept" && (vop.Mode == "full" || vop.Mode == "from") && cur != "" {
+				if pos := l.PositionsForRef(vop.Ref); len(pos) > 0 && w.Entries[pos[len(pos)-1]].Kind == "reference" {
+					start := -1
+					if vop.Mode == "from" {
+						if e, ok := w.ByOp[vop.FromEntry]; ok {
+							start = posOf(w, e.ID)
+						}
+					} else if lv := cachedLastVerified(w, cur, vop.Ref); lv != "" {
+						start = posOf(w, lv)
+					} else {
+						start = pos[0]
+					}
+					if now, _ := w.St.GetRef(cacheRef); now != cur && now != "" && start >= 0 {
+						pendingWalk = [2]int{start, pos[len(pos)-1]}
+					}
+				}
+			}
 			if v.Class == "accept" && (vop.Mode == "full" || vop.Mode == "from") {
 				if pos := l.PositionsForRef(vop.Ref); len(pos) > 0 {
 					last := w.Entries[pos[len(pos)-1]]
@@ -440,7 +481,18 @@ func (d c08) Execute(c *core.Case) *core.Result {
 		}
 		if now, _ := w.St.GetRef(cacheRef); now != cur {
 			if cur != "" {
-				cacheHistory = append(cacheHistory, cacheVal{cur, cacheLogLen})
+				cacheHistory = append(cacheHistory, cacheVal{cur, cacheLogLen, copyWalked()})
+			}
+			if op.Kind == "cachePopulate" || now == "" {
+				walked = map[int]bool{}
+			}
+			if pendingWalk[1] > pendingWalk[0] {
+				walked = copyWalked()
+				for x := pendingWalk[0] + 1; x < pendingWalk[1]; x++ {
+					if e := w.Entries[x]; e.Kind == "reference" && e.Ref == policyRef && e.Policy != nil && !l.Revoked(x) {
+						walked[x] = true
+					}
+				}
 			}
 			// only a (re)population scans the whole log; a verification rewrites the cache
 			// without making its policy/attestation index complete for entries it did not walk
